@@ -57,9 +57,16 @@ Definition run_eqb (a b : run_obs) : bool :=
 (* a case = pipeline, consumer program, observations of the implementation *)
 Definition icase : Type := ((pz + pl) * program * run_obs)%type.
 
+(* the other pipelines of an Equal must exist in package iterator too *)
+Definition prog_supported (prog : program) : bool :=
+  match prog with
+  | Reduce (REqual others) _ => forallb iter_supported_z others
+  | _ => true
+  end.
+
 Definition check_iter (c : icase) : bool :=
   let '(p, prog, obs) := c in
-  iter_supported p && run_eqb (run_iter p prog) obs.
+  iter_supported p && prog_supported prog && run_eqb (run_iter p prog) obs.
 
 Definition check_stream (c : icase) : bool :=
   let '(p, prog, obs) := c in
@@ -68,7 +75,7 @@ Definition check_stream (c : icase) : bool :=
 (* the same for an explicit configuration (fixed_cfg: all repairs; original_cfg: none) *)
 Definition check_iter_cfg (cfg : config) (c : icase) : bool :=
   let '(p, prog, obs) := c in
-  iter_supported p && run_eqb (run_iter_cfg cfg p prog) obs.
+  iter_supported p && prog_supported prog && run_eqb (run_iter_cfg cfg p prog) obs.
 Definition check_stream_cfg (cfg : config) (c : icase) : bool :=
   let '(p, prog, obs) := c in
   run_eqb (run_stream_cfg cfg p prog) obs.
@@ -125,6 +132,23 @@ Proof. vm_compute. reflexivity. Qed.
 Example ex_iter_equal_self :
   check_iter (inl (ZFirst 1 (ZSrc 3 (SSlice [5;6]))), Reduce REqualSelf true,
               mkRunObs [so (RVal [1]) [1;1]] [SevNext 3; SevNext 1003]%nat) = true.
+Proof. vm_compute. reflexivity. Qed.
+
+(* Equal on different pipelines: [1;2;0] vs [1;2] is false (decided when the second ends; the
+   third iterator is not pulled in that round) *)
+Example ex_iter_equal_false :
+  check_iter (inl (ZSrc 0 (SSlice [1;2;0])),
+              Reduce (REqual [ZSrc 1 (SSlice [1;2]); ZSrc 2 (SSlice [1;2;0])]) true,
+              mkRunObs [so (RVal [0]) [3;3;2]]
+                       [SevNext 0; SevNext 1; SevNext 2; SevNext 0; SevNext 1; SevNext 2;
+                        SevNext 0; SevNext 1]%nat) = true.
+Proof. vm_compute. reflexivity. Qed.
+Example ex_iter_equal_true :
+  check_iter (inl (ZMap (FnAffine 1 1) never_fails (ZSrc 0 (SCounter 3))),
+              Reduce (REqual [ZSrc 1 (SSlice [1;2;3])]) true,
+              mkRunObs [so (RVal [1]) [4;4]]
+                       [SevNext 0; SevNext 1; SevNext 0; SevNext 1; SevNext 0; SevNext 1;
+                        SevNext 0; SevNext 1]%nat) = true.
 Proof. vm_compute. reflexivity. Qed.
 
 (* streams: a transient error in the middle of a chunk keeps the partial chunk; an expired
